@@ -8,6 +8,8 @@ use std::collections::HashSet;
 
 #[derive(Clone, Debug)]
 pub struct TyProfile {
+    /// bool members (only valid outside uniform/storage/push constant)
+    pub bools: bool,
     pub f64_: bool,
     pub ints: bool,
     pub atomic: bool,
@@ -23,10 +25,10 @@ pub struct TyProfile {
 
 impl TyProfile {
     pub fn full() -> Self {
-        TyProfile { f64_: true, ints: true, atomic: true, rt: true, mats: true, nested: true, arrays: true, attrs: false, max_array: 6, friendly: 2 }
+        TyProfile { bools: false, f64_: true, ints: true, atomic: true, rt: true, mats: true, nested: true, arrays: true, attrs: false, max_array: 6, friendly: 2 }
     }
     pub fn simple() -> Self {
-        TyProfile { f64_: false, ints: true, atomic: false, rt: false, mats: false, nested: false, arrays: false, attrs: false, max_array: 4, friendly: 4 }
+        TyProfile { bools: false, f64_: false, ints: true, atomic: false, rt: false, mats: false, nested: false, arrays: false, attrs: false, max_array: 4, friendly: 4 }
     }
 }
 
@@ -146,6 +148,9 @@ fn gen_scalar(ch: &mut Ch, tp: &TyProfile) -> Sc {
     }
     if tp.f64_ {
         opts.push(Sc::F64);
+    }
+    if tp.bools {
+        opts.push(Sc::Bool);
     }
     *ch.pick(&opts)
 }
@@ -589,12 +594,16 @@ fn gen_stex(ch: &mut Ch, p: &Profile) -> Tex {
 fn gen_buffer(ch: &mut Ch, p: &Profile, sh: &Shader) -> GKind {
     // candidate types: host structs, or a bare leaf / array
     let use_struct = !sh.structs.is_empty() && ch.chance(5, 8);
-    let host_structs: Vec<usize> = (0..sh.structs.len()).filter(|i| sh.structs[*i].members.iter().all(|m| m.io == Io::None)).collect();
+    let host_structs: Vec<usize> = (0..sh.structs.len())
+        .filter(|i| sh.structs[*i].members.iter().all(|m| m.io == Io::None) && !Ty::St(*i).has_scalar(Sc::Bool, &sh.structs))
+        .collect();
+    let mut tp_nobool = p.ty.clone();
+    tp_nobool.bools = false;
     let ty = if use_struct && !host_structs.is_empty() {
         Ty::St(*ch.pick(&host_structs))
     } else {
         let nest_ok: Vec<usize> = host_structs.iter().copied().filter(|i| !Ty::St(*i).has_rt_array(&sh.structs)).collect();
-        let mut t = gen_sized_ty(ch, &p.ty, &sh.structs, &nest_ok, 0);
+        let mut t = gen_sized_ty(ch, &tp_nobool, &sh.structs, &nest_ok, 0);
         if matches!(t, Ty::At(_)) {
             // a bare atomic as the type of a binding is outside the generator's supported set
             // ("Unsupported type" panic, the source marks it TODO: Support more types)
@@ -844,14 +853,16 @@ pub fn gen_shader(ch: &mut Ch, p: &Profile) -> Shader {
     // other module-scope variables
     let sized_no_atomic: Vec<usize> =
         (0..n_host).filter(|i| !Ty::St(*i).has_rt_array(&sh.structs) && !Ty::St(*i).has_atomic(&sh.structs)).collect();
+    let push_ok: Vec<usize> = sized_no_atomic.iter().copied().filter(|i| !Ty::St(*i).has_scalar(Sc::Bool, &sh.structs) && !Ty::St(*i).has_scalar(Sc::F64, &sh.structs)).collect();
     let sized: Vec<usize> = (0..n_host).filter(|i| !Ty::St(*i).has_rt_array(&sh.structs)).collect();
     if ch.chance(p.push, 8) {
-        let ty = if !sized_no_atomic.is_empty() && ch.flip() {
-            Ty::St(*ch.pick(&sized_no_atomic))
+        let ty = if !push_ok.is_empty() && ch.flip() {
+            Ty::St(*ch.pick(&push_ok))
         } else {
             let mut tp = p.ty.clone();
             tp.atomic = false;
             tp.f64_ = false;
+            tp.bools = false;
             gen_sized_ty(ch, &tp, &sh.structs, &[], 0)
         };
         // push constants may not contain f64 in naga? (they may) -- keep whatever naga accepts; pre-flight measures
@@ -903,6 +914,15 @@ pub fn gen_shader(ch: &mut Ch, p: &Profile) -> Shader {
             gen_block(ch, &cx, p.stmts, 0)
         };
         sh.funcs.push(Func { name, ret, body });
+    }
+
+    // some otherwise unused structs become function-local data
+    for si in n_host..sh.structs.len() {
+        if !sh.funcs.is_empty() && !Ty::St(si).has_atomic(&sh.structs) && !Ty::St(si).has_rt_array(&sh.structs) && ch.chance(3, 8) {
+            let fi = ch.idx(sh.funcs.len());
+            let name = sh.structs[si].name.clone();
+            sh.funcs[fi].body.push(Stmt::Raw(format!("var local_{si}: {name};")));
+        }
     }
 
     // entry points
